@@ -135,7 +135,9 @@ class Program:
         self.raw = d
         self.source = path
         from .renames import normalise
+        from .inline import inline_new_helpers
         self.rename_notes = normalise(d)
+        self.rename_notes += inline_new_helpers(d)
         self.crate = d["crate"]
         self.nonce = d.get("nonce")
         self.config = d.get("config")
